@@ -2501,6 +2501,7 @@ def inline_dropout_training_mode_constants_ir(graph: ir.Graph) -> None:
     changed = False
     del_not_names: Set[str] = set()
     del_not_nodes: Set[ir.Node] = set()
+    false_value: Optional[ir.Value] = None
 
     for idx, n in enumerate(nodes):
         if n.op_type != "Dropout":
@@ -2536,7 +2537,30 @@ def inline_dropout_training_mode_constants_ir(graph: ir.Graph) -> None:
                     continue
                 nv = _read_scalar_bool_from_value_or_constant(nodes, not_in)
                 if nv is not None and bool(nv) is True:
-                    rep_val = _constant_false_value()
+                    if false_value is None:
+                        # One shared constant per graph, produced by a Constant node
+                        # placed first so that every re-routed consumer sees it
+                        # (a bare Value would dangle; function bodies own no
+                        # initializers).
+                        false_value = _constant_false_value()
+                        graph.insert_before(
+                            nodes[0],
+                            ir.Node(
+                                op_type="Constant",
+                                domain="",
+                                inputs=[],
+                                outputs=[false_value],
+                                name="false_const_node",
+                                attributes=[
+                                    ir.Attr(
+                                        "value",
+                                        IRAttrType.TENSOR,
+                                        false_value.const_value,
+                                    )
+                                ],
+                            ),
+                        )
+                    rep_val = false_value
                     ins_new = list(ins)
                     ins_new[2] = rep_val
                     old_not_out = _node_output(producer)
